@@ -39,7 +39,7 @@ _TRAD = {}
 
 def trad_space(tier):
     if tier not in _TRAD:
-        _TRAD[tier] = [c for c in pycodec.c_space(tier) if is_traditional(c)]
+        _TRAD[tier] = [c for c in pycodec.c_space(tier) if is_traditional(c) and "last_member" not in c.feats]  # the struct-end variants are C07's (bounds), not a codec shape of their own
     return _TRAD[tier]
 
 
